@@ -556,10 +556,7 @@ fn build_filter(
                     query_builder
                         .and_where_eq("type_script.hash_type", format!("${}", param_index));
                     *param_index += 1;
-                    query_builder.and_where_ge("type_script.args", format!("${}", param_index));
-                    *param_index += 1;
-                    query_builder.and_where_lt("type_script.args", format!("${}", param_index));
-                    *param_index += 1;
+                    add_prefix_range_conditions(query_builder, "type_script.args", param_index);
                 }
                 IndexerScriptType::Type => {
                     query_builder
@@ -568,10 +565,7 @@ fn build_filter(
                     query_builder
                         .and_where_eq("lock_script.hash_type", format!("${}", param_index));
                     *param_index += 1;
-                    query_builder.and_where_ge("lock_script.args", format!("${}", param_index));
-                    *param_index += 1;
-                    query_builder.and_where_lt("lock_script.args", format!("${}", param_index));
-                    *param_index += 1;
+                    add_prefix_range_conditions(query_builder, "lock_script.args", param_index);
                 }
             }
         }
@@ -596,10 +590,7 @@ fn build_filter(
         if filter.output_data.is_some() {
             match filter.output_data_filter_mode {
                 Some(IndexerSearchMode::Prefix) | None => {
-                    query_builder.and_where_ge("output.data", format!("${}", param_index));
-                    *param_index += 1;
-                    query_builder.and_where_lt("output.data", format!("${}", param_index));
-                    *param_index += 1;
+                    add_prefix_range_conditions(query_builder, "output.data", param_index);
                 }
                 Some(IndexerSearchMode::Exact) => {
                     query_builder.and_where_eq("output.data", format!("${}", param_index));
